@@ -17,6 +17,9 @@ import Martian.SchedProgress
 import Proofs.SchedProgress
 import Proofs.SchedRestart
 
+/-! ### definitional unfoldings (documentation of the model, not guarantees)
+The theorems whose docstring starts with DEFINITIONAL UNFOLDING (restart_preserves_done, crash_keeps_disk, wipedAtLoad_spec) restate a guard
+or a definition of the model; they stay where later theorems use them and are not cited as guarantees. -/
 namespace Props.C05
 open Martian.Sched
 
@@ -48,14 +51,14 @@ theorem complete_kept_on_disk {g : List NodeInfo} {s : State} {e : Ev} {o : Obj}
   intro he; subst he
   exact complete_not_reset hr hj hen hc
 
-/-- `restart_preserves_done`: after `crash; restart` mrp's view of every object
+/-- DEFINITIONAL UNFOLDING (documentation of the model / of a guard, not a guarantee). `restart_preserves_done`: after `crash; restart` mrp's view of every object
 is exactly the state of its directory — in particular everything complete on
 disk is seen complete (and is therefore not submitted again, C03). -/
 theorem restart_preserves_done {s : State} (o : Obj) :
     (apply (apply s .crash) .restart).st o = s.dst o := by
   simp [State.st, State.dst, apply_m, reload]
 
-/-- a crash itself changes nothing on disk -/
+/-- DEFINITIONAL UNFOLDING (documentation of the model / of a guard, not a guarantee). a crash itself changes nothing on disk -/
 theorem crash_keeps_disk {s : State} (o : Obj) : ((apply s .crash).m o).disk = (s.m o).disk := by
   simp [apply_m]
 
@@ -92,7 +95,7 @@ theorem fullreset_only_wiped_nodes {g : List NodeInfo} {s : State} {o : Obj}
     List.contains_eq_mem, decide_eq_true_eq] at h
   exact h
 
-/-- … where that set is computed by `restart` from the directory contents -/
+/-- DEFINITIONAL UNFOLDING (documentation of the model / of a guard, not a guarantee). … where that set is computed by `restart` from the directory contents -/
 theorem wipedAtLoad_spec (s : State) (n : Nat) :
     n ∈ (apply s .restart).wipedAtLoad ↔
       n < s.nodes.length ∧
